@@ -525,6 +525,17 @@ def c04 : List String → String
           | some out, .file b => if out == b then "keep" else if out == content then "content" else "pointer:" ++ hex out
           | some out, _ => if out == content then "content" else "pointer:" ++ hex out)
      | _, _ => "bad-op")
+  | ["tofile", oid, size, content, state] =>
+    (match unhex oid, size.toNat?, unhex content with
+     | some o, some n, some cont =>
+       let recorded : Ptr := { oid := o, size := n, exts := [] }
+       let cur? : Option Co.WFile :=
+         if state == "a0" then some (.absent false)
+         else if state.startsWith "f" then (unhex (state.drop 1).toString).map Co.WFile.file else none
+       (match cur? with
+        | none => "bad-op"
+        | some cur => hex (Co.smudgeToFile recorded [(o, cont)] cur))
+     | _, _, _ => "bad-op")
   | ["tofetch", ps] =>
     -- ps: oid:size:localsize|n per pointer; answer: indices of the pointers requested
     let ptrs? := (if ps == "-" then some [] else (ps.splitOn ",").mapM fun t =>
